@@ -386,10 +386,10 @@ def run_tolerance_spelling(case, r):
         try:
             x, _ = obj.linear_solve(M.copy(), rhs.copy(), np.zeros_like(rhs))
         except Exception as e:  # noqa: BLE001
-            r.fail(cell, "an explicit zero among the tolerances of an iterative back-end is accepted", options=name, exception=repr(e)[:300])
+            r.fail(cell + "/usable", "every accepted formulation / back-end pair completes a solve (also with an explicit zero among its tolerances)", options=name, exception=repr(e)[:300])
             continue
         err = float(np.max(np.abs(np.asarray(x, dtype=float) - x0))) / sc
-        r.check(err <= 1e-8, cell, "with a tolerance of 1e-11 / 1e-12 requested (the other one explicitly zero) the iterative solution agrees with the direct one to 1e-8", options=name, err_rel=err, shape=shape)
+        r.check(err <= 1e-8, cell + "/accuracy", "with a tolerance of 1e-11 / 1e-12 requested (the other one explicitly zero) the iterative solution agrees with the direct one to 1e-8", options=name, err_rel=err, shape=shape)
         r.nontriv((shape, form, name))
     r.count("transitions", len(spellings) + 1)
     r.count("traces", len(spellings) + 1)
